@@ -407,7 +407,10 @@ func newHistEnv() *env.Env {
 // cancellation either; slow = it returned only then.
 func execWatched(e *env.Env, src string, patience time.Duration, setup func(cancel func())) (err error, hung, slow bool) {
 	ctx, cancel := context.WithCancel(context.Background())
-	defer cancel()
+	// the context of an earlier run that ended by itself is NEVER cancelled afterwards (as the background context it
+	// stands for): whatever the run left behind (a function value that remembers the context of its first call, say)
+	// must not be stopped by it; the cancel function is kept, not called
+	keptCancels = append(keptCancels, cancel)
 	if setup != nil {
 		setup(cancel)
 	}
@@ -478,6 +481,7 @@ func histNote(hist []Hist) string {
 	return strings.Join(parts, "; ")
 }
 
+var keptCancels []context.CancelFunc
 var hungHist = map[string]bool{}
 var histHangs int // runs of the history sub-check that did not return
 var poisoned bool // state of the process is damaged (reported): the search of the history sub-check is over
